@@ -102,13 +102,17 @@ CHECKS = {
  "C32": dict(tech=TECH+"sibling comparison of all topic resolver sites of client library, gateway and CLI tools (callee + argument origins per topic-ID type), origin tracing of the client identity on both ends, C05's lookup-consistency rules and C21's short-topic codec rule re-run",
    text="Both endpoints compute the ID<->name mapping with the same functions on the same key for every topic-ID type and every configuration; that both ends were given the same configuration is the operator's responsibility and is not decided.",
    note="Trusted: go/ssa.", ref="4/C32"),
+ "C34": dict(tech=TECH+"who-may-send rule over the reverse call graph: every call site of the MQTT sender is classified by the goroutine roots and callbacks that can execute it (receive loops, retry callbacks, sleep pinger; anything else is a violation); C12's timer/pinger rules, C09's keep-alive rules, C13's receive-loop rules and C10's reaping rules re-run",
+   text="Only the structural necessary conditions of the bound: the gateway never sends to the broker on its own (every send is caused by a client packet, a broker packet, a budget-bounded retransmission or the duration-bounded sleep pinger), so a silent client means a silent broker connection that the assumed broker drops; the pinger is bounded by the announced duration; the broker is told the client's keep-alive and zero is refused; a broker close ends the session; the connect exchange always has its timer. The numeric bounds of the statement (connect timeout, 1.5x keep-alive, sleep duration + 1.5x keep-alive) are properties of timed histories under an assumption about the broker: no static argument in reach decides them and they are NOT claimed.",
+   note="Trusted: go/ssa; static calls, closures and bound-method values inside package gateway (a function value that escapes in another way is reported, not ignored). The broker's behaviour is the property's own assumption.", ref="4/C34"),
+ "C26": dict(tech=TECH+"agreement rules between the two implementations: mutual dispatcher coverage by type-flow, both sides' exchange tables re-checked against the protocol table (rules of C03, C16, C17, C27 re-run), exploration of the client's sleep step per client state against the gateway's sleep automaton, symbolic exploration of the client's REGISTER case against the gateway's allocation site",
+   text="Agreement conditions between client library and gateway, each necessary for interoperation: mutual handler coverage, the same (request, reply, state) tables on both sides, the same meaning of the sleep cycle (gateway asleep again after the wake-up PINGRESP; client's Sleep() from awake is silent, from active announces the duration), the same meaning of topic registration. The end-to-end statement - every API call succeeds and every matching message reaches its handler for every call sequence - is a history property of two cooperating state machines and is NOT decided. Known finding: one name can have two registrations pending at the gateway while the client refuses a second ID for a known name.",
+   note="Trusted: go/ssa. Both sides are checked against the protocol's tables frozen in the checker, so agreement is decided at the level of packet types, reply routing and states, not of timing.", ref="4/C26"),
 }
 
 CODEC = set('C01 C02 C03 C04 C06 C07 C08 C09 C11 C12 C13 C14 C16 C17 C23 C24 C27 C31 C32 C33'.split())
 
 NA = {
- "C26": "quantifies over all API call sequences of two cooperating state machines plus a broker with end-to-end effects; no shape-level rule implies it. Its only structural necessary condition (mutual handler coverage) is C23-R2; the concrete mismatches named by its anchors are decided where their mechanism lives (C11-R2, C02).",
- "C34": "a wall-clock bound under an assumption about an external broker; every mechanism it rests on is a rule of C09 (zero keep-alive refused), C12 (sleep pinger) or C13 (broker close ends the session); the numeric bounds themselves are properties of timed histories that no static argument available here can bound.",
 }
 
 def main():
